@@ -440,16 +440,24 @@ class FakeSocket:
             # Redis rounds half up: (ttl_ms + 500) / 1000
             return int(math.floor((key.expireat - self._db.time) * scale + 0.5))
 
+    def _check_expire_ms(self, name, ms, basetime_ms=0):
+        # The deadline is a signed 64-bit number of milliseconds in Redis
+        if ms + basetime_ms >= 2 ** 63 or ms < -2 ** 63:
+            raise SimpleError(msgs.INVALID_EXPIRE_MSG.format(name))
+
     @command((Key(), Int))
     def expire(self, key, seconds):
+        self._check_expire_ms('expire', seconds * 1000, int(self._db.time * 1000))
         return self._expireat(key, self._db.time + seconds)
 
     @command((Key(), Int))
     def expireat(self, key, timestamp):
+        self._check_expire_ms('expireat', timestamp * 1000)
         return self._expireat(key, float(timestamp))
 
     @command((Key(), Int))
     def pexpire(self, key, ms):
+        self._check_expire_ms('pexpire', ms, int(self._db.time * 1000))
         return self._expireat(key, self._db.time + ms / 1000.0)
 
     @command((Key(), Int))
